@@ -109,8 +109,8 @@ Cat(ss) == IF ss = <<>> THEN <<>> ELSE Head(ss) \o Cat(Tail(ss))
 AllSeq(s, P(_)) == \A i \in 1..Len(s) : P(s[i])
 
 ReprAlign(r) ==
-  CASE r = "align (2)" -> 2 [] r = "align (4)" -> 4 [] r = "align (8)" -> 8
-    [] r = "align (16)" -> 16 [] r = "align (32)" -> 32 [] r = "align (64)" -> 64
+  CASE r = "align(2)" -> 2 [] r = "align(4)" -> 4 [] r = "align(8)" -> 8
+    [] r = "align(16)" -> 16 [] r = "align(32)" -> 32 [] r = "align(64)" -> 64
     [] OTHER -> 1
 HasReprC(T) == \E i \in 1..Len(T.reprs) : T.reprs[i] = "C"
 AllFields(T) ==
@@ -232,7 +232,7 @@ RECURSIVE TypeHashPre(_)
 TypeHashPre(T) ==
   CASE T.k = "prim" -> HS(T.name)
     [] T.k = "unit" -> HS("()")
-    [] T.k = "rangefull" -> HS("core :: ops :: RangeFull")
+    [] T.k = "rangefull" -> HS("core::ops::RangeFull")
     [] T.k = "string" -> HS("String")
     [] T.k = "boxstr" -> HS("Box<str>")
     [] T.k = "str" -> HS("str")
@@ -243,9 +243,9 @@ TypeHashPre(T) ==
     [] T.k = "tuple" -> HS("()") \o Cat([i \in 1..T.n |-> TypeHashPre(T.elem)])
     [] T.k = "htuple" -> HS("()") \o Cat([i \in 1..Len(T.elems) |-> TypeHashPre(T.elems[i])])
     [] T.k = "option" -> HS("Option") \o TypeHashPre(T.elem)
-    [] T.k = "bound" -> HS("core :: ops :: Bound") \o TypeHashPre(T.elem)
-    [] T.k = "cflow" -> HS("core :: ops :: ControlFlow") \o TypeHashPre(T.b) \o TypeHashPre(T.c)
-    [] T.k = "range" -> HS("core :: ops :: " \o T.rk) \o TypeHashPre(T.elem)
+    [] T.k = "bound" -> HS("core::ops::Bound") \o TypeHashPre(T.elem)
+    [] T.k = "cflow" -> HS("core::ops::ControlFlow") \o TypeHashPre(T.b) \o TypeHashPre(T.c)
+    [] T.k = "range" -> HS("core::ops::" \o T.rk) \o TypeHashPre(T.elem)
     [] T.k = "struct" ->
          HS(IF T.zc THEN "ZeroCopy" ELSE "DeepCopy")
          \o Cat([i \in 1..Len(T.consts) |-> ConstTok(T.consts[i])])
